@@ -19,7 +19,7 @@ from concurrent.futures import ThreadPoolExecutor
 VERIF = os.path.dirname(os.path.dirname(os.path.abspath(__file__)))
 COQ = os.path.join(VERIF, "coq")
 BUILD = os.path.join(VERIF, "build")
-REPO = "/repo"
+REPO = os.environ.get("VERIF_REPO_OVERRIDE") or "/repo"   # override: development only (trying seeded changes in a scratch worktree)
 NCPU = min(16, os.cpu_count() or 4)
 
 TRUSTED_BASE = [
